@@ -788,10 +788,7 @@ def check(run, repo):
                        'BEP witness points: R T = 1 kcal/mol, slope 0.3, intercept 2 kcal/mol, dH = -30 / +30 kcal/mol',
                        'species getters uninterpreted; unit model verified by C12']
     run.undecided = ['positivity of A as a numeric fact', 'which reactants count as surface species for arbitrary '
-                     'user phase objects',
-                     'the Python type of a stoichiometric coefficient (from_string yields floats; numbers carry no '
-                     'int/float type in the interpreter, so a coefficient used as a repetition count or index '
-                     'without int() is not seen)']
+                     'user phase objects']
     n = clamp(run, repo)
     run.floor('clamp instances', n, 100)
     n = bep_rules(run, repo)
@@ -882,9 +879,9 @@ MUTANTS = [
      'edits': [(O_, "    def _get_n_surf(self):\n        \"\"\"Counts the number of surface reactants", "    _n_surf_vals = {}\n\n    def _get_n_surf(self):\n        \"\"\"Counts the number of surface reactants"),
                (O_, "        n_surf = 0\n        for species, stoich in zip(self.reactants, self.reactants_stoich):\n            if isinstance(species.phase, InteractingInterface):\n                n_surf += stoich\n        return n_surf", "        try:\n            return self._n_surf_vals['n_surf']\n        except KeyError:\n            pass\n        n_surf = 0\n        for species, stoich in zip(self.reactants, self.reactants_stoich):\n            if isinstance(species.phase, InteractingInterface):\n                n_surf += stoich\n        self._n_surf_vals['n_surf'] = n_surf\n        return n_surf")]},
 ]
-# whitebox3/C09_A4: needs numbers that know their Python type (/tmp/gaps3/REQ3_C09.md item 1: Interp.pyfloat); to be
-# moved into MUTANTS when list repetition by a float is a modelled TypeError.  Not replayed by the self-test
-PENDING_MUTANTS = [
+# whitebox3/C09_A4: the coefficient of a parsed reaction is a Python float (Interp.pyfloat); repeating a list by it is a
+# TypeError
+MUTANTS += [
     {'name': 'Chemkin get_A repeats the site density by the coefficient itself (a float for parsed reactions)',
      'expect': ('REF.A', 'ChemkinReaction.get_A'),
      'edits': [(R_, "                    continue\n                site_dens.extend([site_den] * int(stoich))", "                    continue\n                site_dens.extend([site_den] * stoich)")]},
@@ -892,6 +889,7 @@ PENDING_MUTANTS = [
      'expect': ('REF.A', 'SurfaceReaction.get_A'),
      'edits': [(O_, "                    continue\n                site_dens.extend([site_den] * int(stoich))", "                    continue\n                site_dens.extend([site_den] * stoich)")]},
 ]
+PENDING_MUTANTS = []
 # behaviour-preserving rewrites of the same round (whitebox2/C09_B1..B3), reduced: must stay silent
 EQUIV = [
     {'name': 'clamp as nested maximum: max(0, max(barrier, change))',
